@@ -814,3 +814,58 @@ func init() {
 	mut("C02", "v2 siacoin inputs validated from the second one on", true, "use-guard|v2-",
 		Edit{"consensus/validation.go", "\tfor i, sci := range txn.SiacoinInputs {\n\t\tif txid, ok := ms.spent(sci.Parent.ID); ok {", "\tfor i := 1; i < len(txn.SiacoinInputs); i++ {\n\t\tsci := txn.SiacoinInputs[i]\n\t\tif txid, ok := ms.spent(sci.Parent.ID); ok {"})
 }
+
+func init() {
+	// ---- round 5 rules ----
+	v := "consensus/validation.go"
+	mut("C01", "revision's missed host value capped by the CURRENT contract's host output", true, "v2-revision-missed-host-cap",
+		Edit{v, "rev.MissedHostValue.Cmp(rev.HostOutput.Value) > 0:", "rev.MissedHostValue.Cmp(cur.HostOutput.Value) > 0:"})
+	mut("C07", "revision's missed host value cap dropped", true, "v2-revision-missed-host-cap",
+		Edit{v, "case ms.base.childHeight() >= ms.base.Network.HardforkV2.EphemeralOutputHeight && rev.MissedHostValue.Cmp(rev.HostOutput.Value) > 0:", "case false && rev.MissedHostValue.Cmp(rev.HostOutput.Value) > 0:"})
+	mut("C07", "(benign) cap's era gate named", false, "",
+		Edit{v, "\t\tcurOutputSum := cur.RenterOutput.Value.Add(cur.HostOutput.Value)\n", "\t\tcapMissed := ms.base.childHeight() >= ms.base.Network.HardforkV2.EphemeralOutputHeight\n\t\tcurOutputSum := cur.RenterOutput.Value.Add(cur.HostOutput.Value)\n"},
+		Edit{v, "case ms.base.childHeight() >= ms.base.Network.HardforkV2.EphemeralOutputHeight && rev.MissedHostValue.Cmp(rev.HostOutput.Value) > 0:", "case capMissed && rev.MissedHostValue.Cmp(rev.HostOutput.Value) > 0:"})
+	m := "consensus/merkle.go"
+	mut("C04", "element walk returns after the first storage proof", true, "walk-complete",
+		Edit{m, "\t\t\tcheck(\"storage proof\", chainIndexLeaf(&r.ProofIndex))\n", "\t\t\tcheck(\"storage proof\", chainIndexLeaf(&r.ProofIndex))\n\t\t\treturn\n"})
+	mut("C04", "(benign) element walk stops at the first error", false, "",
+		Edit{m, "\t\tcheck(\"siafund input\", siafundLeaf(&txn.SiafundInputs[i].Parent, false))\n", "\t\tcheck(\"siafund input\", siafundLeaf(&txn.SiafundInputs[i].Parent, false))\n\t\tif err != nil {\n\t\t\treturn err\n\t\t}\n"})
+	mut("C12", "commitment compared only when the block has v2 transactions", true, "v2-commitment-checked",
+		Edit{v, "\tif b.V2 != nil {\n\t\tif b.V2.Commitment != s.Commitment(", "\tif b.V2 != nil && len(b.V2.Transactions) > 0 {\n\t\tif b.V2.Commitment != s.Commitment("})
+	mut("C12", "commitment recomputed without the v1 transactions", true, "v2-commitment-checked",
+		Edit{v, "s.Commitment(b.MinerPayouts[0].Address, b.Transactions, b.V2Transactions())", "s.Commitment(b.MinerPayouts[0].Address, nil, b.V2Transactions())"})
+	a := "consensus/application.go"
+	mut("C13", "Work.add shadows the carry", true, "work-carry-chain|consensus.(Work).add",
+		Edit{a, "\tvar sum, c uint64\n\tfor i := 24; i >= 0; i -= 8 {\n\t\twi := binary.BigEndian.Uint64(w.n[i:])\n\t\tvi := binary.BigEndian.Uint64(v.n[i:])\n\t\tsum, c = bits.Add64(wi, vi, c)\n", "\tvar c uint64\n\tfor i := 24; i >= 0; i -= 8 {\n\t\twi := binary.BigEndian.Uint64(w.n[i:])\n\t\tvi := binary.BigEndian.Uint64(v.n[i:])\n\t\tsum, c := bits.Add64(wi, vi, c)\n"})
+	mut("C13", "Work.div64 restarts the remainder at every word", true, "work-carry-chain|consensus.(Work).div64",
+		Edit{a, "\t\tquo, rem = bits.Div64(rem, wi, v)\n", "\t\tquo, rem = bits.Div64(0, wi, v)\n\t\t_ = rem\n"})
+	mut("C13", "Work.mul64 carries only the high half", true, "work-carry-chain|consensus.(Work).mul64",
+		Edit{a, "\t\tc = hi + cc\n", "\t\tc = hi\n\t\t_ = cc\n"})
+	mut("C13", "(benign) Work.sub names the borrow", false, "",
+		Edit{a, "\tvar sum, c uint64\n\tfor i := 24; i >= 0; i -= 8 {\n\t\twi := binary.BigEndian.Uint64(w.n[i:])\n\t\tvi := binary.BigEndian.Uint64(v.n[i:])\n\t\tsum, c = bits.Sub64(wi, vi, c)\n\t\tbinary.BigEndian.PutUint64(r.n[i:], sum)\n\t\tif c > 0 && i == 0 {", "\tvar borrow uint64\n\tfor i := 24; i >= 0; i -= 8 {\n\t\twi := binary.BigEndian.Uint64(w.n[i:])\n\t\tvi := binary.BigEndian.Uint64(v.n[i:])\n\t\tvar diff uint64\n\t\tdiff, borrow = bits.Sub64(wi, vi, borrow)\n\t\tbinary.BigEndian.PutUint64(r.n[i:], diff)\n\t\tif borrow > 0 && i == 0 {"})
+	pol := "types/policy.go"
+	mut("C14", "entropy key rejected before the walk's exit test", true, "uc-entropy-key",
+		Edit{pol, "\t\t\t\tif p.SignaturesRequired == 0 || p.SignaturesRequired > uint64(len(p.PublicKeys[i:])) || p.SignaturesRequired > uint64(len(sigs)) {\n\t\t\t\t\tbreak\n\t\t\t\t}\n", "\t\t\t\tif pk.Algorithm == SpecifierEntropy {\n\t\t\t\t\treturn errors.New(\"policy uses an entropy public key\")\n\t\t\t\t}\n\t\t\t\tif p.SignaturesRequired == 0 || p.SignaturesRequired > uint64(len(p.PublicKeys[i:])) || p.SignaturesRequired > uint64(len(sigs)) {\n\t\t\t\t\tbreak\n\t\t\t\t}\n"})
+	mk := "rhp/v4/merkle.go"
+	mut("C16", "append proof reads the subtrees after the appended roots went in", true, "append-proof-order",
+		Edit{mk, "\tvar subtreeRoots []types.Hash256\n\tfor i, h := range acc.Trees {\n\t\tif acc.NumLeaves&(1<<i) != 0 {\n\t\t\tsubtreeRoots = append(subtreeRoots, h)\n\t\t}\n\t}\n\tfor _, h := range appended {\n\t\tacc.AddLeaf(h)\n\t}\n", "\tfor _, h := range appended {\n\t\tacc.AddLeaf(h)\n\t}\n\tvar subtreeRoots []types.Hash256\n\tfor i, h := range acc.Trees {\n\t\tif acc.NumLeaves&(1<<i) != 0 {\n\t\t\tsubtreeRoots = append(subtreeRoots, h)\n\t\t}\n\t}\n"})
+	tr := "rhp/v2/transport.go"
+	mut("C19", "F17 returns: MAC tail sized 32-(clen%16)", true, "mac-trailer",
+		Edit{tr, "[:16+(16-rr.clen%16)%16]", "[:32-(rr.clen%16)]"})
+	mut("C19", "MAC tail's length field one word early", true, "mac-trailer",
+		Edit{tr, "binary.LittleEndian.PutUint64(tail[len(tail)-8:], rr.clen)", "binary.LittleEndian.PutUint64(tail[len(tail)-16:], rr.clen)"})
+	mut("C19", "(benign) MAC tail padding with a mask", false, "",
+		Edit{tr, "[:16+(16-rr.clen%16)%16]", "[:16+(-rr.clen&15)]"})
+	mut("C20", "list loop parses an element before looking for the closing bracket", true, "list-grammar",
+		Edit{pol, "\t\t\tvar of []SpendPolicy\n\t\t\tfor err == nil && peek() != ']' {", "\t\t\tvar of []SpendPolicy\n\t\t\tfor err == nil {"})
+	mp := "types/multiproof.go"
+	mut("C18", "walker hands every leaf to the visitor, ephemeral or not", true, "skips-ephemeral",
+		Edit{mp, "\t\tif l.LeafIndex != UnassignedLeafIndex {\n\t\t\tfn(l)\n\t\t}\n", "\t\tfn(l)\n"})
+	mut("C06", "revert re-points every leaf at ONE shared copy", true, "repoint-before-reverse",
+		Edit{a, "\tfor _, elems := range eru.updated {\n\t\tfor i := range elems {\n\t\t\tse := elems[i].StateElement.Move()\n\t\t\telems[i].StateElement = &se\n", "\tvar se types.StateElement\n\tfor _, elems := range eru.updated {\n\t\tfor i := range elems {\n\t\t\tse = elems[i].StateElement.Move()\n\t\t\telems[i].StateElement = &se\n"})
+	cur := "types/currency.go"
+	mut("C15", "(benign) Mul64WithOverflow fast path for a zero high word", false, "",
+		Edit{cur, "\thi0, lo0 := bits.Mul64(c.Lo, v)\n\thi1, lo1 := bits.Mul64(c.Hi, v)\n", "\thi0, lo0 := bits.Mul64(c.Lo, v)\n\tif c.Hi == 0 {\n\t\treturn Currency{lo0, hi0}, false\n\t}\n\thi1, lo1 := bits.Mul64(c.Hi, v)\n"})
+	mut("C15", "Mul64WithOverflow fast path taken for a zero LOW word", true, "limb-identity",
+		Edit{cur, "\thi0, lo0 := bits.Mul64(c.Lo, v)\n\thi1, lo1 := bits.Mul64(c.Hi, v)\n", "\thi0, lo0 := bits.Mul64(c.Lo, v)\n\tif c.Lo == 0 {\n\t\treturn Currency{lo0, hi0}, false\n\t}\n\thi1, lo1 := bits.Mul64(c.Hi, v)\n"})
+}
